@@ -1,5 +1,6 @@
 """pyvc driver: contracts, verification contexts, path exploration and obligation discharge."""
 import ast
+import os
 import time
 import traceback
 
@@ -287,15 +288,38 @@ def verify_contract(contract, want_smt_sample=True, log=None, shard=()):
                 if res.failed or len(res.unknown) >= 2:
                     res.skipped += 1      # this obligation already has a counter-model / is already undecided: one witness is enough
                     continue
-                verdict, m, dt = core.solve(ob.pc, ob.goal, contract.solver_timeout_ms)
+                if getattr(contract, "prefer_cvc5", False):
+                    # string-theory obligations: z3 5.1's sequence solver is erratic on them (same query: milliseconds or a time-out, depending on
+                    # unrelated declarations), cvc5 --strings-exp is steady; z3 remains the fallback
+                    verdict, m, dt = core.solve_cvc5(ob.pc, ob.goal, 4000)
+                    if verdict == "sat":
+                        # a z3 model object feeds the contract's witness builder (replay on the real code); cvc5's answer stands if z3 stalls
+                        v2, m2, dt2 = core.solve(ob.pc, ob.goal, contract.solver_timeout_ms)
+                        dt += dt2
+                        if v2 == "sat":
+                            m = m2
+                    if verdict != "unknown":
+                        res.by_cvc5 += 1
+                    else:
+                        verdict, m, dt2 = core.solve(ob.pc, ob.goal, contract.solver_timeout_ms)
+                        dt += dt2
+                else:
+                    verdict, m, dt = core.solve(ob.pc, ob.goal, contract.solver_timeout_ms)
+                if os.environ.get("PYVC_DUMP_SLOW") and (dt > 2.0 or verdict == "unknown"):
+                    try:
+                        with open(os.path.join(os.environ["PYVC_DUMP_SLOW"], f"slow_{os.getpid()}_{res.instances}.smt2"), "w") as fh:
+                            fh.write(f"; {ob.name} {verdict} {dt:.1f}s\n" + core.smt2_of(ob.pc, ob.goal))
+                    except Exception:
+                        pass
                 if verdict == "unknown":
-                    verdict, m, dt2 = core.solve_frontend(ob.pc, ob.goal, contract.solver_timeout_ms)
-                    dt += dt2
-                if verdict == "unknown":
+                    # second solver first: cvc5 answers within milliseconds where z3's string / quantifier engines stall (and the other way round)
                     verdict, m, dt2 = core.solve_cvc5(ob.pc, ob.goal, contract.solver_timeout_ms)
                     dt += dt2
                     if verdict != "unknown":
                         res.by_cvc5 += 1
+                if verdict == "unknown":
+                    verdict, m, dt2 = core.solve_frontend(ob.pc, ob.goal, contract.solver_timeout_ms)
+                    dt += dt2
                 if verdict == "unknown":
                     verdict, m, dt2 = core.refute_small(ob.pc, ob.goal, ex.lengths)
                     dt += dt2
